@@ -24,9 +24,11 @@ def ser32 (i : Nat) : Bytes := (List.range 4).map fun k => UInt8.ofNat ((i / 256
 
 def hash160 (b : Bytes) : Bytes := Ripemd160.ripemd160 (Sha256.sha256 b)
 
+section
+variable {P : Type} (C : Curve P)
+
 /-- `DeriveChildKey(index, pk, curve)`: returns the offset `IL` and the child key -/
 def deriveChild (index : Nat) (k : ExtKey) : Outcome (Nat × ExtKey) :=
-  let C := Secp256k1.curve
   if index ≥ hardenedKeyStart then .err "hardened" else
   if k.depth = maxDepth then .err "max-depth" else
   match C.lift k.pub with
@@ -49,10 +51,12 @@ def deriveChild (index : Nat) (k : ExtKey) : Outcome (Nat × ExtKey) :=
 def derivePath (mod : Nat) : List Nat → ExtKey → Nat → Outcome (Nat × ExtKey)
   | [], k, acc => .ok (acc, k)
   | i :: rest, k, acc =>
-    match deriveChild i k with
+    match deriveChild C i k with
     | .ok (il, child) => derivePath mod rest child ((il + acc) % mod)
     | .err e => .err e
     | .panic e => .panic e
+
+end
 
 /-- `(*ExtendedKey).String()`: base58check of the 78-byte serialisation -/
 def serialize (k : ExtKey) : String :=
